@@ -6,6 +6,9 @@ mod c02;
 mod c03;
 mod c04;
 mod c05;
+mod c07;
+mod c12;
+mod c16;
 mod corpus;
 mod codec;
 mod common;
@@ -30,6 +33,9 @@ fn main() {
         "C03" => c03::run(&cli, &rep),
         "C04" => c04::run(&cli, &rep),
         "C05" => c05::run(&cli, &rep),
+        "C07" => c07::run(&cli, &rep),
+        "C12" => c12::run(&cli, &rep),
+        "C16" => c16::run(&cli, &rep),
         other => {
             eprintln!("mc-seq: unknown check {other}");
             std::process::exit(2);
